@@ -108,6 +108,7 @@ func runC13(env *lib.Env, rep *lib.Report) {
 		hasCreate := false
 		var execErr error
 		var failedSQL string
+		w.scheduled = true
 		deadlock := sched.Run(func() {
 			for _, kind := range sc.stmts {
 				s := c13Stmt(w, kind)
@@ -158,6 +159,7 @@ func runC13(env *lib.Env, rep *lib.Report) {
 			}
 		}()
 		_ = deadlock
+		w.scheduled = false
 		if len(sched.Problems) > 0 {
 			c.Fail(sched.ProblemKinds[0], "%s", strings.Join(sched.Problems, "\n"))
 			return
